@@ -6,6 +6,7 @@ marker-less twins; operations are
     R(key)        reconfigure(g, key) then interpret
     A(key, af)    configure, rearrange(t, key, attributes_first=af), interpret
     T(v)          encode(g, top=v) then decode
+    RT(v)         reconfigure(g, top=v, key=canonical) then interpret
 chained to a depth bound, states de-duplicated on (triples, markers, top).
 Invariant in every state: content equals the content of the initial state (same
 top for R and A, top = v for T).  For A additionally the ordering specification
@@ -199,7 +200,7 @@ def check(case, ctx):
                 om.alphanumeric_order(tr[1])
                 om.is_role_inverted(tr[1])
     keys = KEYS_QUICK if case.get('q') else KEYS
-    ops = [('R', k, None) for k in keys] + [('A', k, af) for k in keys for af in (False, True)] + [('T', v, None) for v in variables]
+    ops = [('R', k, None) for k in keys] + [('A', k, af) for k in keys for af in (False, True)] + [('T', v, None) for v in variables] + [('RT', v, None) for v in variables]
     seen = set()
     frontier = []
     for label, g in inits:
@@ -240,6 +241,11 @@ def check(case, ctx):
                                          case={'t': case['t'], 'depth': case['depth'], 'model': name, 'history': hist + [list(map(str, op))]})
                                 return
                             g2 = layout.interpret(tr, pm)
+                        elif kind == 'RT':
+                            # reconfigure towards a new top (canonical key): content kept, top = the requested one
+                            tr = layout.reconfigure(g, top=(arg + ' ')[:-1], model=pm, key=pm.canonical_order)
+                            g2 = layout.interpret(tr, pm)
+                            top_expected = arg
                         else:
                             s = penman.encode(g, top=(arg + ' ')[:-1], model=pm)     # a new str object, as supplied by a caller
                             g2 = penman.decode(s, model=pm)
